@@ -3,6 +3,8 @@ Leader stages (Aggregator.tla, checks/agg_common.py) followed by the follower st
 import os
 
 from checks import agg_common, c14f
+from checks import sys as system_loop
+from checks.common import Check
 
 PROP = "C14"
 
@@ -17,10 +19,18 @@ def select(behaviours, thorough):
 def run(tier, seed):
     c = agg_common.run(PROP, tier, seed, select)
     c14f.stage(c, tier, seed)
+    # the same aggregator runtime fed by REAL signers through its real routes (composed model, spec/system): in the
+    # quick tier this stage runs once, as part of C20 (same stage, same traces); here in the thorough tier only
+    if tier == "thorough":
+        system_loop.stage(c, tier, seed)
     return c.finish()
 
 
 def replay(path, seed):
+    if system_loop.is_sys_trace(path):
+        c = Check(PROP, "quick", seed, "model_checking", replay=True)
+        system_loop.replay_stage(c, path)
+        return c.finish()
     if "follower" in os.path.basename(path):
         return c14f.replay(path, seed, prop=PROP)
     return agg_common.replay(PROP, path, seed)
